@@ -47,6 +47,20 @@ RECURSIVE QKMaxFrom(_, _, _, _)
 QKMaxFrom(a, b, k, cap) == IF k > cap \/ ~MomentFits(a, b, k) THEN k - 1 ELSE QKMaxFrom(a, b, k + 1, cap)
 QKMax(a, b, cap) == QKMaxFrom(a, b, 0, cap)
 
+\* the same two notions computed with running powers (linear instead of quadratic work; used by
+\* the trace judge on long moment sequences; QuadratureMC checks they agree with the definitions)
+QStepCap(p, m) == IF p = -1 THEN -1 ELSE IF m = 0 THEN 0 ELSE IF p > QCap \div m THEN -1 ELSE p * m
+RECURSIVE QKMaxAcc(_, _, _, _, _, _)
+QKMaxAcc(a, b, k, cap, pa, pb) ==              \* pa = |a|^k, pb = |b|^k
+    LET na == QStepCap(pa, VAbs(a))  nb == QStepCap(pb, VAbs(b))
+    IN IF k > cap \/ na = -1 \/ nb = -1 THEN k - 1 ELSE QKMaxAcc(a, b, k + 1, cap, na, nb)
+QKMaxFast(a, b, cap) == QKMaxAcc(a, b, 0, cap, 1, 1)
+RECURSIVE QMomentSeqAcc(_, _, _, _, _, _)
+QMomentSeqAcc(a, b, k, K, pa, pb) ==           \* pa = a^k, pb = b^k ; moments k..K
+    IF k > K THEN <<>>
+    ELSE <<RNorm(pb * b - pa * a, k + 1)>> \o QMomentSeqAcc(a, b, k + 1, K, pa * a, pb * b)
+QMomentSeq(a, b, K) == QMomentSeqAcc(a, b, 0, K, 1, 1)      \* <<Moment(a,b,0), ..., Moment(a,b,K)>>
+
 \* interval-normalised families (max |p| = 1 on the interval)
 NMoment(k)    == IF k % 2 = 1 THEN <<0, 1>> ELSE <<2, k + 1>>             \* = Moment(-1,1,k)
 ChebMoment(k) == IF k % 2 = 1 THEN <<0, 1>> ELSE IF k = 0 THEN <<2, 1>> ELSE RNorm(-2, k * k - 1)   \* integral of T_k over [-1,1]
@@ -104,7 +118,7 @@ QIsLinear(tab) == \A s \in 2..(Len(tab) - 1) : QInterp(<<tab[1], tab[Len(tab)]>>
 (*      nmom, cheb : Seq(rational|QOff) (t^k and T_k(t), k = 0..),                     *)
 (*      polys : Seq([c : coefficient sequence, v : rational|QOff]),                     *)
 (*      lin : Seq(BOOLEAN) (integrator: result = sum of y_i * extracted weight)]        *)
-NeedMom(r, KCapX) == QKMax(r.a, r.b, VMin2(2 * r.n - 1, KCapX)) + 1    \* number of x-monomials demanded
+NeedMom(r, KCapX) == QKMaxFast(r.a, r.b, VMin2(2 * r.n - 1, KCapX)) + 1  \* number of x-monomials demanded
 NeedN(r, KCapN)   == VMin2(2 * r.n - 1, KCapN) + 1                       \* number of t-monomials / Chebyshev
 
 AllEq(s, v) == \A i \in 1..Len(s) : s[i] = v
@@ -123,7 +137,7 @@ RuleFailing(r, KCapX, KCapN, NPoly) ==
        ELSE {}) \cup                                   \* a > b: moments only (sign of b-a; DESIGN section 7)
       (IF Len(r.mom) >= 1 /\ r.mom[1] = Moment(r.a, r.b, 0) THEN {} ELSE {"w_sum"}) \cup
       (IF /\ Len(r.mom) = NeedMom(r, KCapX)
-          /\ \A k \in 2..Len(r.mom) : r.mom[k] = Moment(r.a, r.b, k - 1)
+          /\ LET ms == QMomentSeq(r.a, r.b, Len(r.mom) - 1) IN \A k \in 2..Len(r.mom) : r.mom[k] = ms[k]
        THEN {} ELSE {"moments"}) \cup
       (IF /\ Len(r.nmom) = NeedN(r, KCapN) /\ Len(r.cheb) = NeedN(r, KCapN)
           /\ \A k \in 1..Len(r.nmom) : r.nmom[k] = NMoment(k - 1)
@@ -142,7 +156,7 @@ CacheNew(ctor)    == [ctor |-> ctor, cur |-> ctor]
 EffSet(s, arg)    == IF arg # QNone THEN {arg} ELSE {s.cur, s.ctor} \ {QNone}
 CacheAfter(s, e)  == [s EXCEPT !.cur = e]
 
-\* what a recorded call shows: err, and the set `same` of point counts e for which the call
+\* what a recorded call shows: err, and the sequence `same` of point counts e for which the call
 \* evaluated the integrand at exactly the abscissae a fresh QGauss(e) evaluates it at and
 \* returned the result the fresh object returns (history independence), `nabsc` = number
 \* of abscissae the integrand was evaluated at (0 for tabulated data)
@@ -150,7 +164,7 @@ CallSucc(s, ev) ==                      \* successor states the specification al
     IF EffSet(s, ev.arg) = {} THEN {s}                           \* nothing to integrate with: any outcome
     ELSE IF ev.err # "none" THEN {}
     ELSE {CacheAfter(s, e) : e \in {e2 \in EffSet(s, ev.arg) :
-                                       e2 \in ev.same /\ (ev.kind = "data" \/ ev.nabsc = e2)}}
+                                       e2 \in VRange(ev.same) /\ (ev.kind = "data" \/ ev.nabsc = e2)}}
 CallClause(s, ev) ==                    \* name of the violated clause when CallSucc = {}
     IF ev.err # "none" THEN "unexpected_error"
     ELSE IF ev.kind # "data" /\ ev.nabsc \notin EffSet(s, ev.arg) THEN "uses_other_npts"
@@ -191,10 +205,12 @@ TensorFailing(t) ==
          (IF AllEq(t.lin, TRUE) THEN {} ELSE {"weighted_sum"})
 
 \* tabulated data: d = [n, err, finite, val : BOOLEAN (result = sum W_i * QInterp(table, x_i), to
-\* rounding), hasexact : BOOLEAN, tab (integer lattice table) , exact : rational|QOff]
+\* rounding), tab : rational table, exact : rational|QOff (the result projected onto the exact
+\* integral of the table under the property's tolerance; demanded when the table is linear:
+\* every GL rule integrates a polynomial of degree 1 exactly)]
 DataFailing(d) ==
     IF d.err # "none" THEN {"unexpected_error"}
     ELSE IF ~d.finite THEN {"nonfinite"}
     ELSE (IF d.val THEN {} ELSE {"interpolated_sum"}) \cup
-         (IF d.hasexact => d.exact = QTrapz(d.tab) THEN {} ELSE {"linear_table_integral"})
+         (IF QIsLinear(d.tab) => d.exact = QTrapz(d.tab) THEN {} ELSE {"linear_table_integral"})
 =============================================================================
